@@ -46,6 +46,10 @@ def gen_cases(rng, tier):
             texts.append(f"({w}){o}2")
     texts += ["lambda_x + 1", "lambda1 * 2", "x_lambda + lambda", "in_ + in", "xin + in", "in1 * in", "inn - in", "a.in + a.lambda",
               "lambdas + 1", "-in", "-lambda ** 2", "(in)", "2 * in * lambda", "min(in, lambda)", "in/in", "in-in+in"]
+    # reserved words in every position of port / namespaced identifiers
+    for w in ("#in", "#lambda", "a.#in", "a.#lambda", "a.b.#lambda.x", "#in.lambda", "#lambda.in", "in.b", "lambda.b", "a.in.b",
+              "#p.in", "#p.lambda", "in.#p", "lambda.#in", "a.lambda.#in"):
+        texts += [w, f"{w} + 1", f"2*{w} - x", f"{w}/{w}", f"f({w})"]
     # functions
     fn = ["Max(x, y)", "MAX(x, 2)", "min(x, y) + 1", "CEIL(x / 2)", "ceiling(x / 3)", "Floor(x / 2)", "mod(x, 3)", "MOD(7, y)",
           "Log2(x)", "log2(x) * LOG2(y)", "foo(x, y)", "Foo(y, x)", "foo(x, y) - foo(y, x)", "g(f(x), f(f(y)))", "f(x + 1, y * 2, 3)",
